@@ -10,3 +10,6 @@ open SSVerif.FeSwap
 #print axioms C06_swap_sites_match_model
 #print axioms C06_swap_after_schedule
 #print axioms C06_swap_window_values
+#print axioms C06_swap_mixed_encodings_canonical
+#print axioms C06_swap_overflow_invariant_necessary
+#print axioms C06_swap_carry_invariant_necessary
